@@ -107,8 +107,8 @@ func sanitize(b []byte) string {
 	return sb.String()
 }
 
-func xStr(b []byte) node  { return node{kind: 's', s: sanitize(b)} }
-func xTok(s string) node  { return node{kind: 't', s: s} }
+func xStr(b []byte) node { return node{kind: 's', s: sanitize(b)} }
+func xTok(s string) node { return node{kind: 't', s: s} }
 
 func xFloatBits(bits uint64, size int) node {
 	return node{kind: 't', desc: fmt.Sprintf("float%d bits %#x", size, bits), match: func(a node) error {
